@@ -51,17 +51,22 @@ Print Assumptions C12_reference_accepted.
    with any mix of positional and keyword arguments: callRemote's outbound checkAllArgs, the wire, ArgumentUnslicer's
    per-argument constraints (positional and keyword bookkeeping), the inbound checkAllArgs in _doCall, and the invocation
    with the same objects.  ms_wf: distinct argument names, well-formed constraints; args_guarded: c12_guard for every
-   bound value against the constraint of the name it is bound to. *)
+   bound value against the constraint of the name it is bound to.
+   sent_call voc ms a kw p k: the sender's check accepted (a, kw) and p / k are ANY serialization (ser) of the positional /
+   keyword values.  That is what the real callRemote emits: ArgumentSlicer is a ScopedSlicer, so within one call the second
+   occurrence of a list / tuple / set / dict OBJECT -- m(l, l), m(a=d, b=d), a set shared by members of two arguments --
+   travels as OPEN reference, not as a second copy of the tree.  (Stated over the tree stream only -- send_call = map slice,
+   the *_tree theorems below -- these theorems would describe a stream the sender never emits for such calls.) *)
 Theorem C12_call_delivered : forall voc ms a kw, ms_wf ms -> args_guarded ms a kw ->
-  forall p k, send_call voc ms a kw = Some (p, k) -> recv_call ms p k = CInvoke a kw.
-Proof. exact c12_call. Qed.
+  forall p k, sent_call voc ms a kw p k -> recv_call ms p k = CInvoke a kw.
+Proof. exact c12_call_ser. Qed.
 Print Assumptions C12_call_delivered.
 
 (* ... stated on the children of the `arguments` sequence as the receiver's state machine consumes them *)
 Theorem C12_call_delivered_stream : forall voc ms a kw, ms_wf ms -> args_guarded ms a kw ->
-  forall p k kb, send_call voc ms a kw = Some (p, k) -> code_kws kb = k -> names_text kb = true ->
+  forall p k kb, sent_call voc ms a kw p k -> code_kws kb = k -> names_text kb = true ->
   recv_arguments ms (enc_args p kb) = CInvoke a kw.
-Proof. exact c12_call_stream. Qed.
+Proof. exact c12_call_ser_stream. Qed.
 Print Assumptions C12_call_delivered_stream.
 
 (* ... and on the complete `call` sequence as CallUnslicer + ArgumentUnslicer consume it: request id, object id, method name
@@ -70,10 +75,44 @@ Theorem C12_call_sequence_delivered : forall voc env r c mname t tbl ms a kw,
   (negb (r =? 0) && memZ r (be_active env)) = false -> 0 <= c -> utf8_valid mname = true ->
   assocZ c (be_objs env) = Some t -> t_iface t = Some tbl -> assocZ (name_code mname) tbl = Some ms ->
   ms_wf ms -> args_guarded ms a kw ->
+  forall p k kb, sent_call voc ms a kw p k -> code_kws kb = k -> names_text kb = true ->
+  recv_call_stream env (call_kids r c mname (enc_args p kb)) = QInvoke c (Some (name_code mname)) ms a kw.
+Proof. exact call_delivered_ser. Qed.
+Print Assumptions C12_call_sequence_delivered.
+
+(* non-vacuity, on m(l, l) with one list object l: the stream with the second l as a reference is a sent_call (and is
+   NOT what send_call computes); it is delivered as [l; l] *)
+Theorem C12_shared_argument_example :
+  let l := OList [OInt 1; OInt 2] in let c := CList (CInt (Some 1024)) None 0 in
+  let ms := mkms [{| a_name := nA; a_ctr := c; a_opt := false |}; {| a_name := nB; a_ctr := c; a_opt := false |}] None in
+  ms_wf ms /\ args_guarded ms [l; l] [] /\
+  sent_call [] ms [l; l] [] [slice [] l; WRef l] [] /\
+  send_call [] ms [l; l] [] = Some ([slice [] l; slice [] l], []) /\
+  recv_call ms [slice [] l; WRef l] [] = CInvoke [l; l] [].
+Proof. exact shared_list_call. Qed.
+Print Assumptions C12_shared_argument_example.
+
+(* the special case without repeats: send_call = checkAllArgs, then map slice (the executable sender the correspondence
+   runs against the real callRemote for calls in which no container object occurs twice) *)
+Theorem C12_call_delivered_tree : forall voc ms a kw, ms_wf ms -> args_guarded ms a kw ->
+  forall p k, send_call voc ms a kw = Some (p, k) -> recv_call ms p k = CInvoke a kw.
+Proof. exact c12_call. Qed.
+Print Assumptions C12_call_delivered_tree.
+
+Theorem C12_call_delivered_stream_tree : forall voc ms a kw, ms_wf ms -> args_guarded ms a kw ->
+  forall p k kb, send_call voc ms a kw = Some (p, k) -> code_kws kb = k -> names_text kb = true ->
+  recv_arguments ms (enc_args p kb) = CInvoke a kw.
+Proof. exact c12_call_stream. Qed.
+Print Assumptions C12_call_delivered_stream_tree.
+
+Theorem C12_call_sequence_delivered_tree : forall voc env r c mname t tbl ms a kw,
+  (negb (r =? 0) && memZ r (be_active env)) = false -> 0 <= c -> utf8_valid mname = true ->
+  assocZ c (be_objs env) = Some t -> t_iface t = Some tbl -> assocZ (name_code mname) tbl = Some ms ->
+  ms_wf ms -> args_guarded ms a kw ->
   forall p k kb, send_call voc ms a kw = Some (p, k) -> code_kws kb = k -> names_text kb = true ->
   recv_call_stream env (call_kids r c mname (enc_args p kb)) = QInvoke c (Some (name_code mname)) ms a kw.
 Proof. exact call_delivered. Qed.
-Print Assumptions C12_call_sequence_delivered.
+Print Assumptions C12_call_sequence_delivered_tree.
 
 (* "(and symmetrically for results)": a result that passes the check the target's Broker applies before sending
    (methodSchema.checkResults(res, False) in _callFinished) is accepted by the caller's AnswerUnslicer under the same
@@ -100,14 +139,15 @@ Proof. exact unencodable_result_refused. Qed.
 Print Assumptions C12_unencodable_result_refused_locally.
 
 (* ... and the two ends agree on WHICH texts those are: the receiver's decoder (UnicodeUnslicer.receiveChild:
-   obj.decode("UTF-8"), strict; Schema.utf8_valid, compared with Python's decoder on every run) accepts the UTF-8 form of a
-   text -- the generic one- to four-byte forms, which is also what a lenient errors="surrogatepass" encoder emits --
-   exactly when the text is encodable, and the STRING header the sender writes is the length of that form.  So a body
-   the strict encoder produces is never refused, and letting a lone surrogate out (instead of refusing it locally) always
-   costs the connection (recv_text: UnicodeDecodeError is neither Violation nor BananaError). *)
+   obj.decode("UTF-8"), strict; Schema.utf8_valid / utf8_decode, compared with Python's decoder on every run) accepts the
+   UTF-8 form of a text -- the generic one- to four-byte forms, which is also what a lenient errors="surrogatepass" encoder
+   emits -- exactly when the text is encodable, the STRING header the sender writes is the length of that form, and
+   decoding gives the very text back (the wire tree carries the body BYTES).  So a body the strict encoder produces is
+   never refused, and letting a lone surrogate out (instead of refusing it locally) is always refused by the receiver
+   (recv_text: a Violation since 66cc69a, the connection before). *)
 Theorem C12_sent_text_decodable : forall cps, text_encodable cps = true ->
-  utf8_valid (utf8_encode cps) = true /\ zlen (utf8_encode cps) = utf8size cps.
-Proof. exact utf8_encode_valid. Qed.
+  utf8_valid (utf8_encode cps) = true /\ zlen (utf8_encode cps) = utf8size cps /\ utf8_decode (utf8_encode cps) = cps.
+Proof. exact utf8_roundtrip. Qed.
 Print Assumptions C12_sent_text_decodable.
 
 Theorem C12_decoder_accepts_iff_encodable : forall cps, forallb cp_in_range cps = true ->
